@@ -190,7 +190,10 @@ def gen_template(rng):
         prev = names[-1][0] if names else None
         choices = [("data", "l"), ("data", "o"), ("smember", ("data", "a"), "b"), ("cond", rng.choice(CONDS), ("data", "l"), ("data", "o")),
                    ("cond", rng.choice(CONDS), ("data", "l"), ("int", 2)), ("cond", rng.choice(CONDS), ("arr", [("item", ("int", 1))]), ("data", "l")),
-                   ("int", 2), ("bin", "LogicOr", ("data", "l"), ("data", "o")), ("dmember", ("data", "a"), ("data", "k"))]
+                   ("int", 2), ("bin", "LogicOr", ("data", "l"), ("data", "o")), ("dmember", ("data", "a"), ("data", "k")),
+                   # lists that live in a script module, alone and mixed with a data list in a conditional (no item path may be a data path then)
+                   ("smember", ("data", "m"), "o"), ("cond", rng.choice(CONDS), ("data", "l"), ("smember", ("data", "m"), "o")),
+                   ("cond", rng.choice(CONDS), ("smember", ("data", "m"), "p"), ("data", "o"))]
         if prev:
             choices += [("smember", ("data", prev), "sub"), ("smember", ("data", prev), "v"), ("data", prev), ("dmember", ("data", prev), ("data", "s")),
                         ("cond", rng.choice(CONDS), ("smember", ("data", prev), "sub"), ("data", "l"))] * 2
@@ -252,7 +255,9 @@ def expected_leaves(struct, D, path="p"):
     """for every rendered <input>, in document order: (model path, event path, change path, value of the model expression)"""
     loops, e_model, e_event, e_change = struct
     out = []
-    base = [Scope("m", {"$": "module"}, [2, path, "m"]), Scope("w", {"$": "module"}, [1, "x"])]
+    FN_ = {"$": "fn"}
+    # the values of the two script modules (WXS_INLINE, WXS_FILE)
+    base = [Scope("m", {"f": FN_, "o": {"g": FN_, "p": {"q": FN_}}, "p": {"q": 1}}, [2, path, "m"]), Scope("w", {"f": FN_, "o": {"g": FN_}, "p": {"q": 2}}, [1, "x"])]
 
     def rec(d, scopes):
         if d == len(loops):
@@ -270,6 +275,7 @@ def expected_leaves(struct, D, path="p"):
         # the compiler drops the item path when it cannot tell statically whether the list is data or script
         if 0 in roots and (1 in roots or 2 in roots):
             lp = None
+            roots = set()      # (dropped statically: expressions over the item have no root at all for the loops inside)
         for (x, i) in list_items(v):
             ip = None if lp is None else lp + [i]
             s_item = Scope(item, x, ip)
